@@ -1,6 +1,8 @@
 // vp_harness <ID> --tier quick|thorough --seed S --part i/n --log FILE [--skip K] [--only K] [--mode M]
 // exit 0 = ran to completion (violations are in the log); 2 = harness failure; anything else is a
 // sanitizer / signal death that check.py attributes through the CRASH line.
+#include <malloc.h>
+
 #include "common.h"
 #include "lib.h"
 #include "ops.h"
@@ -120,6 +122,12 @@ int main(int argc, char** argv) {
     if (!strcmp(table[i].id, G.prop)) {
       fprintf(G.log, "START\t%s\ttier=%s\tseed=%" PRIu64 "\tpart=%d/%d\tskip=%" PRId64 "\tmode=%s\n", G.prop,
               G.thorough ? "thorough" : "quick", G.seed, G.part, G.nparts, G.skip_upto, G.mode);
+#if !VP_ASAN && !VP_TSAN
+      // plain builds: glibc hands out recycled heap memory with whatever it held before, and M_PERTURB makes "whatever" a chosen byte
+      // (complemented for fresh blocks): a table whose constructor leaves a field unwritten then differs from run to run - the
+      // fresh-process reference of C15 uses another byte (see pristine_start)
+      if (!G.valgrind) mallopt(M_PERTURB, 0xA5 ^ (G.part & 0x1F));
+#endif
       if (!strcmp(G.prop, "C15") && !G.valgrind) pristine_start();
       process_prelude();
       table[i].fn();
